@@ -165,6 +165,8 @@ def run():
             cases.append({"block": b, "opts": o, "_group": g, "kind": "load-store-blocks", "_cpu": 90})
         for b in c06.flow_blocks(random.Random(common.seed() + 717), 24 if quick else 240):
             cases.append({"block": b, "opts": o, "_group": g, "kind": "load-flow-store-blocks", "_cpu": 90})
+        for b in c06.ternary_blocks(random.Random(common.seed() + 727), 6 if quick else 40):
+            cases.append({"block": b, "opts": o, "_group": g, "kind": "ternary-blocks", "_cpu": 90})
         rr = random.Random(common.seed() + 77)
         for i in range(n_rand):
             b, k = gen.gen_block(rr, "short")
